@@ -64,3 +64,15 @@ func (ch *MethodChannel) resolve(file *File) error {
 	}
 	return nil
 }
+
+// compile
+
+func (ch *MethodChannel) compile() error {
+	if in := ch.In; in != nil && in.Kind != KindMessage {
+		return fmt.Errorf("invalid channel in, must be a message, got %q instead", in.Kind)
+	}
+	if out := ch.Out; out != nil && out.Kind != KindMessage {
+		return fmt.Errorf("invalid channel out, must be a message, got %q instead", out.Kind)
+	}
+	return nil
+}
